@@ -5,7 +5,9 @@ Streams (real pytezos vs the Lean mirror, same inputs):
   parse    T.from_micheline_value(m) on the rendered forms, on alternative spellings (flat / nested / sequence combs,
            annotated value primitives, timestamp strings with offsets and fractions, strings for ints …) and on
            mutants (wrong arities, wrong primitives, swapped literal kinds)
-  clock    the civil-date arithmetic of the driver's environment vs `datetime` / `strict_rfc3339`
+  clock    `Civil.fmtTimestamp` / `Civil.parseTimestamp` / `civilFromDays` / `daysFromCivil` (the model whose round trip is
+           proved) vs the real `format_timestamp`, `TimestampType` parsing and `strict_rfc3339`, on year / month / leap-day
+           boundaries, midnights, the epoch, random and out-of-range instants, and ~45 spellings of the text
 Property oracle on the real code: T.from_micheline_value(v.to_micheline_value(mode)) is the same value (compared
 structurally through the objects; signatures by payload) for every mode, and timestamps outside years 1..9999 render
 as integers in readable mode."""
@@ -250,10 +252,18 @@ def run(ctx):
                          'every node, or, option, list, set, map, big_map, lambda, contract, ticket, sapling_state) with values up to 4096-bit ints, '
                          'timestamps at the year boundaries 0001/0999/1000/9999/10000, negative and >= 2^63; right combs of 2..9 components in every '
                          'annotation pattern of the pair nodes; x 3 modes x lazy_diff None/False/True; parse stream adds alternative spellings and mutants. '
-                         'non-trivial = composite value, boundary timestamp, or a mutant')
+                         'clock stream (model of format_timestamp / strict_rfc3339 vs the real functions, and the round trip on the real code): every month start / month end '
+                         '+-1 s and 28 Feb .. 1 Mar of 34 years (0001, 0004, 0100, 0400, 1000, 1582, 1600, 1900, 1970, 2000, 2038, 2100, 9999, neighbours, leap and common years), '
+                         'October 1582, epoch and 2^31 / 2^32 neighbourhoods, random midnights +-1 s rendered in three different orders, 10 000 (T: 200 000) random instants '
+                         '(a quarter negative), instants outside the range (integer fallback); for the instants: canonical text, and for a part of them ~45 other spellings '
+                         '(lower case, fractions, offsets, trailing newline, impossible dates, one-character mutants); civilFromDays / daysFromCivil also far outside years 1..9999 '
+                         'against an independent 400-year-shift reference. non-trivial = composite value, boundary timestamp, non-random clock instant, non-canonical spelling, or a mutant')
     ctx.assumptions += [
         'base58 text and optimized bytes of domain values are abstract in the theorems (laws = C09/C10); the driver uses a structured placeholder, converted with the real library at the boundary',
-        'RFC 3339 formatting/parsing is an abstract contract in the theorems; the driver implements civil-date arithmetic, cross-checked here with datetime / strict_rfc3339 (not proved)',
+        'RFC 3339: the round trip parse(format(t)) = t is PROVED for the model (Civil.fmtTimestamp / Civil.parseTimestamp, all t in 0001..9999); trusted and only sampled here (clock stream): '
+        'that datetime.fromtimestamp/strftime (inside format_timestamp) and strict_rfc3339 / calendar.timegm compute the same functions as the model',
+        "timestamp strings: Python's `\\d` also matches non-ASCII decimal digits (not modelled, not generated); the binary-float arithmetic of a fraction (`timestamp += float('0' + frac)`, "
+        "`-= offset`, `int`) IS modelled (round-to-nearest-even binary64 on rationals) and compared on fractions of 1..400 digits including the ones that round to the neighbouring second",
         'check_constraints (sorted/set over __lt__/__hash__) is abstract (C03); multi-element sets/maps are generated only for key types this harness can order independently'
         + ('' if pairs_ok else ' — pair keys excluded: PairType.__lt__ is not lexicographic on this tree (C03)'),
         'lambda bodies: Micheline.match(...).as_micheline_expr() is assumed idempotent on the generated bodies (checked here on each body)',
@@ -382,25 +392,131 @@ def run(ctx):
         if model is not None and unplaceholder(model[i]) != impl:
             ctx.mismatch('parse', {'type': t, 'spelling': name, 'micheline': json.dumps(mm)[:300]}, impl[:300], model[i][:300])
 
-    # ---------------------------------------------------------------- clock stream (driver environment vs datetime)
+    # ---------------------------------------------------------------- clock stream
+    run_clock(ctx, st)
+
+
+def run_clock(ctx, st):
+    """`Civil.fmtTimestamp` / `Civil.parseTimestamp` / `civilFromDays` / `daysFromCivil` (the model the theorems are
+    about) against the real `format_timestamp`, `TimestampType` and `strict_rfc3339`, and the property on the real code
+    for every instant of the stream.  The real functions are called in stream order inside this one process."""
     import strict_rfc3339
-    ts = [v for v in g.TS_BOUNDARIES if RFC_LO <= v <= RFC_HI] + [rng.randrange(RFC_LO, RFC_HI + 1) for _ in range(300 if ctx.tier == 'quick' else 20000)]
-    clines = [f'fmt {v}' for v in ts] + ['tsparse ' + (s.encode().hex() or '-') for s in TS_STRINGS]
-    model = ctx.model(clines)
-    if model is not None:
-        padded = st.get('format_timestamp shape', (False, ''))[1].endswith('True')
-        for v, got in zip(ts, model):
-            want = expected_readable_ts(v)['string']
-            if not padded:
-                want = want.lstrip('0') if not want.startswith('0000') else want
-            ctx.case({'stream': 'clock', 'fmt': v}, nontrivial=False)
-            if got != want:
-                ctx.mismatch('clock:fmt', v, want, got)
-        for s, got in zip(TS_STRINGS, model[len(ts):]):
+    from pytezos.michelson.format import format_timestamp
+    rng = ctx.rng
+    quick = ctx.tier == 'quick'
+    TS = g.type_class({'prim': 'timestamp'})
+    instants = g.clock_instants(rng, 10000 if quick else 200000, 150 if quick else 3000)
+
+    def real_parse(s):
+        try:
+            return str(TS.from_micheline_value({'string': s}).value)
+        except Exception:
+            return 'err'
+
+    def lib_parse(s):
+        try:
+            return str(int(strict_rfc3339.rfc3339_to_timestamp(s)))
+        except strict_rfc3339.InvalidRFC3339Error:
+            return 'none'
+
+    # ---- rendering, in stream order
+    rows = []
+    for label, t in instants:
+        try:
+            text = format_timestamp(t)
+        except Exception:
+            text = 'err'
+        try:
+            m = mich.normalize(TS.from_value(t).to_micheline_value(mode='readable'))
+        except Exception as e:
+            m = 'raises ' + type(e).__name__
+        back = None
+        if isinstance(m, dict):
             try:
-                want = str(int(strict_rfc3339.rfc3339_to_timestamp(s)))
-            except strict_rfc3339.InvalidRFC3339Error:
-                want = 'none'
-            ctx.case({'stream': 'clock', 'parse': s}, nontrivial=False)
+                back = TS.from_micheline_value(m).value
+            except Exception as e:
+                back = 'raises ' + type(e).__name__
+        rows.append((label, t, text, m, back))
+    # one driver run for the whole stream (its start-up dominates on a busy machine)
+    inside = [(label, t) for label, t in instants if RFC_LO <= t <= RFC_HI]
+    n_rich = 220 if quick else 6000
+    step = max(1, len(inside) // n_rich)
+    strings = [('fixed', s) for s in TS_STRINGS]
+    for i, (label, t) in enumerate(inside):
+        strings += [(lab, s) for lab, s in g.clock_spellings(rng, t, i % step == 0)]
+    zs = [z for _, t in instants[::7] for z in [t // 86400]] + [rng.randrange(-10 ** 7, 10 ** 7) for _ in range(500 if quick else 20000)] \
+        + [rng.randrange(-10 ** 12, 10 ** 12) for _ in range(100 if quick else 2000)] + [-719468, -719469, -719467, 0, -1, 146097 - 719468, 146096 - 719468]
+    dates = []
+    for _ in range(600 if quick else 20000):
+        y = rng.choice([rng.randrange(-5000, 15000), rng.choice(g.CLOCK_YEARS), rng.choice([0, -1, -4, -100, -400, 10000, 10400])])
+        mth = rng.randrange(0, 14)
+        d = rng.choice([0, 1, 2, 27, 28, 29, 30, 31, 32, rng.randrange(1, 29)])
+        dates.append((y, mth, d))
+    ty = mich.to_line({'prim': 'timestamp'})
+    blocks = [[f'fmt {t}' for _, t, _, _, _ in rows],
+              ['tsparse ' + (s.encode().hex() or '-') for _, s in strings],
+              [f'parse {ty} | ' + mich.to_line({'string': s}) for _, s in strings],
+              [f'civil {z}' for z in zs],
+              [f'days {y} {mth} {d}' for y, mth, d in dates]]
+    out = ctx.model([ln for b in blocks for ln in b])
+    models, pos = [], 0
+    for b in blocks:
+        models.append(None if out is None else out[pos:pos + len(b)])
+        pos += len(b)
+    fmt_model, tsparse_model, parse_model, civil_model, days_model = models
+    reported = set()
+    for i, (label, t, text, m, back) in enumerate(rows):
+        inside = RFC_LO <= t <= RFC_HI
+        ctx.case({'stream': 'clock', 'instant': t}, nontrivial=not label.startswith('random'))
+        ctx.count('clock_instants', label.split(':')[0] + (':' + label.split(':')[1] if label.split(':')[0] in ('random', 'outside', 'midnight', 'feb') else ''))
+        want = {'string': g.canon_ts(t)} if inside else {'int': str(t)}
+        bucket = ts_bucket(t)
+        if m != want:
+            key = f'timestamp-readable-form:{bucket}'
+            if key not in reported:
+                reported.add(key)
+                prev = [x[1] for x in rows[max(0, i - 3):i]]
+                ctx.violation(key, f'timestamp {t} renders in readable mode as {json.dumps(m)}, expected {json.dumps(want)} (instants rendered just before in this process: {prev})',
+                              {'timestamp': t, 'rendered': m, 'expected': want, 'rendered_before': prev,
+                               'python': f'[TimestampType.from_value(x).to_micheline_value("readable") for x in {prev + [t]}]'})
+        elif back != t:
+            key = f'timestamp-readable:{bucket}'
+            if key not in reported:
+                reported.add(key)
+                ctx.violation(key, f'timestamp {t} renders as {json.dumps(m)} and parses back as {back}', {'timestamp': t, 'rendered': m, 'parsed_back': back})
+        elif inside and text != want['string']:
+            key = f'format_timestamp:{bucket}'
+            if key not in reported:
+                reported.add(key)
+                ctx.violation(key, f'format_timestamp({t}) = {text!r}, expected {want["string"]!r}', {'timestamp': t, 'text': text, 'expected': want['string']})
+        if fmt_model is not None and fmt_model[i] != text:
+            ctx.mismatch('clock:fmt', {'instant': t, 'label': label}, text, fmt_model[i])
+
+    # ---- parsing: canonical text of every instant, the other spellings for a part of them
+    for i, (lab, s) in enumerate(strings):
+        ctx.case({'stream': 'clock-parse', 'string': s}, nontrivial=lab != 'canonical')
+        ctx.count('clock_spelling', lab)
+        lib, real = lib_parse(s), real_parse(s)
+        ctx.count('clock_parse_verdict', 'rfc3339' if lib != 'none' else ('int' if real != 'err' else 'rejected'))
+        if tsparse_model is not None:
+            if tsparse_model[i] != lib:
+                ctx.mismatch('clock:tsparse', {'spelling': lab, 'string': s}, lib, tsparse_model[i])
+            got = parse_model[i]
+            got = got[1:] if got.startswith('m') else got
+            if got != real:
+                ctx.mismatch('clock:parse', {'spelling': lab, 'string': s}, real, got)
+
+    # ---- the date algorithms themselves, also far outside the years `datetime` knows
+    if civil_model is not None:
+        for z, got in zip(zs, civil_model):
+            ctx.case({'stream': 'clock-civil', 'day': z}, nontrivial=False)
+            want = '%d %d %d' % g.civil_of_days(z)
             if got != want:
-                ctx.mismatch('clock:parse', s, want, got)
+                ctx.mismatch('clock:civilFromDays', z, want, got)
+        for (y, mth, d), got in zip(dates, days_model):
+            ctx.case({'stream': 'clock-days', 'date': [y, mth, d]}, nontrivial=False)
+            valid = 1 <= mth <= 12 and 1 <= d <= g.month_len(y, mth)
+            want = str(g.days_of_any(y, mth, d)) if valid else 'invalid'
+            ctx.count('clock_dates', 'valid' if valid else 'invalid')
+            if got != want:
+                ctx.mismatch('clock:daysFromCivil', [y, mth, d], want, got)
